@@ -319,8 +319,10 @@ def exec_plan(binary, prop, plan_lines, env, env2, avoid, known):
         os.unlink(path)
 
 
-def get_plan(binary, prop, seed, run, thorough):
+def get_plan(binary, prop, seed, run, thorough, failk=0):
     args = ['plan', '--prop', prop, '--seed', str(seed), '--run', str(run)] + (['--thorough'] if thorough else [])
+    if failk:
+        args += ['--failk', str(failk)]
     rc, so, se = run_worker(binary, args, timeout=60)
     lines = so.splitlines()
     env = int(re.search(r'env=(\d+)', lines[0]).group(1))
@@ -414,7 +416,7 @@ def gate(prop, cfg, flavour, binary, seed, rec, thorough, avoid, known, tier):
     """-> (replay path or None, note). None means: does not reproduce (harness error) or not attributable."""
     if rec.get('run', -1) < 0:
         return None, 'no run index'
-    plan, env, env2 = get_plan(binary, prop, seed, rec['run'], thorough)
+    plan, env, env2 = get_plan(binary, prop, seed, rec['run'], thorough, int(rec.get('failk', 0) or 0))
     sig = signature(rec)
     # 1. same run in a fresh process, twice
     envs = (env, env2) if differential(prop) else (env, 0)
@@ -657,6 +659,8 @@ def write_evidence(prop, tier, seed, wall, t_build, agg, distinct, cfgs, pairs, 
         'placements': agg.get('placements', {}),
         'ops_executed': agg.get('ops', {}),
         'reach_probes': agg.get('probes', {}),
+        'c17_subject_ops_enumerated': int(agg.get('c17_subject_ops_enumerated', 0)),
+        'c17_failure_points_enumerated': int(agg.get('c17_failure_points', 0)),
         'blocked_runs': int(agg.get('blocked', 0)),
         'blocked_by': blocked,
         'capped_runs': int(agg.get('capped', 0)),
